@@ -8,13 +8,27 @@ import (
 	"sort"
 	"strconv"
 	"strings"
+	"sync"
 )
 
 // buffers handed to the implementation in the current case, with a snapshot of each, so that
 // "never modifies the caller's input" can be checked after every call.
 var caseBufs [][2][]byte
 
-func resetBufs() { caseBufs = caseBufs[:0] }
+// Concurrent mode (C11): while the goroutines of one case run, Unhex hands every goroutine the SAME buffer for the
+// same hex argument, so the implementation is exercised from many goroutines on shared input buffers.
+var (
+	bufMu      sync.Mutex
+	sharedMode bool
+	sharedBufs = map[string][]byte{}
+)
+
+func resetBufs() {
+	bufMu.Lock()
+	caseBufs = caseBufs[:0]
+	sharedBufs = map[string][]byte{}
+	bufMu.Unlock()
+}
 
 func buffersIntact() bool {
 	for _, b := range caseBufs {
@@ -29,6 +43,14 @@ func buffersIntact() bool {
 // buffer whose capacity equals its length (so an over-read past the slice is a Go panic too),
 // and registers it for the immutability check.
 func Unhex(s string) []byte {
+	if sharedMode {
+		bufMu.Lock()
+		if b, ok := sharedBufs[s]; ok {
+			bufMu.Unlock()
+			return b
+		}
+		bufMu.Unlock()
+	}
 	out := make([]byte, 0, len(s)/2)
 	for i := 0; i < len(s); {
 		c := s[i]
@@ -54,6 +76,14 @@ func Unhex(s string) []byte {
 	copy(exact, out)
 	snap := make([]byte, len(out))
 	copy(snap, out)
+	bufMu.Lock()
+	defer bufMu.Unlock()
+	if sharedMode {
+		if b, ok := sharedBufs[s]; ok {
+			return b
+		}
+		sharedBufs[s] = exact
+	}
 	caseBufs = append(caseBufs, [2][]byte{exact, snap})
 	return exact
 }
